@@ -274,11 +274,11 @@ class eval_abs(object):
             elif ptr_diff <0 and ptr_diff + k.size/8>0:
                 ov.append((-ptr_diff, k))
         """
-        # suppose max mem size is 64 bytes, compute all reachable addresses
+        # suppose max mem size is 128 bits (an SSE operand), compute all reachable addresses
         to_test = []
         #comp = {}
         #print("FINDING %s" % e)
-        for i in range(-7, e.size//8):
+        for i in range(-15, e.size//8):
             ex = expr_simp(e.arg + ExprInt(uint32(i)))
             #print("%s %s"%(i, ex))
             to_test.append((i, ex))
